@@ -319,6 +319,36 @@ func c03(r *mon.Run) {
 				inner = strings.Repeat("(", d) + toks[0] + strings.Repeat(")", d) + " " + strings.Join(toks[1:], " ")
 				forms = append(forms, inner)
 			}
+			// every other operand that is a plain atom (not a member name behind a dot, not a function name), d times
+			for k := 1; k < len(toks); k++ {
+				if (toks[k] == "a" || toks[k] == "b" || toks[k] == "@" || toks[k] == "`1`") && toks[k-1] != "." && (k+1 == len(toks) || toks[k+1] != "(") && (i/len(depths)+k)%3 == 0 {
+					forms = append(forms, strings.Join(toks[:k], " ")+" "+strings.Repeat("(", d)+toks[k]+strings.Repeat(")", d)+" "+strings.Join(toks[k+1:], " "))
+				}
+			}
+			// the parenthesised expression inside each bracketing construct: the construct's own AST around that of the bare expression
+			wrapped := strings.Repeat("(", d) + base + strings.Repeat(")", d)
+			ctxs := [][2]string{{"[", "]"}, {"[ a , ", " ]"}, {"{ k : ", " }"}, {"{ k : a , j : ", " }"}, {"a [? ", " ]"}, {"[? ", " ] . b"}, {"not_null ( ", " )"}, {"not_null ( a , ", " , b )"}, {"map ( & ", " , a )"}, {"[ { k : [? ", " ] } ]"}, {"a [ * ] . [ ", " ]"}, {"a . { k : ", " }"}, {"! ", ""}, {"a || ", " || b"}, {"a | ", ""}}
+			cx := ctxs[(i/len(depths))%len(ctxs)]
+			if wantC, oc := parseSexpr(cx[0] + "( " + base + " )" + cx[1]); !oc.Panicked && oc.Err == nil {
+				f := cx[0] + wrapped + cx[1]
+				sx, o := parseSexpr(f)
+				if o.Panicked || o.Err != nil || sx != wantC {
+					obs := sx
+					if o.Panicked || o.Err != nil {
+						obs = o.String()
+					}
+					r.Violate(&mon.Violation{Workload: "deep-redundant-parentheses", Index: i, API: "Parse", Expr: brief(f),
+						Expected: "the AST of " + cx[0] + "( " + base + " )" + cx[1] + " (" + strconv.Itoa(d) + " redundant parentheses inside a bracketing construct change nothing): " + wantC, Observed: obs,
+						Class: "deep-redundant-parentheses: Parse inside a bracketing construct"})
+					return
+				}
+				if _, co := apiCompile(f); co.Panicked || co.Err != nil {
+					r.Violate(&mon.Violation{Workload: "deep-redundant-parentheses", Index: i, API: "Compile", Expr: brief(f),
+						Expected: "compiles like " + cx[0] + "( " + base + " )" + cx[1], Observed: co.String(), Class: "deep-redundant-parentheses: Compile inside a bracketing construct"})
+					return
+				}
+				t.Count("deeply parenthesised spellings inside a bracketing construct")
+			}
 			for _, f := range forms {
 				sx, o := parseSexpr(f)
 				if o.Panicked || o.Err != nil || sx != want {
